@@ -70,6 +70,15 @@ func GenTorSpec(st *simrt.Stream, o SpecOpts) *TorSpec {
 	multi := o.MultiFile == 2 || (o.MultiFile == 0 && st.Bool(1, 2))
 	if multi {
 		s.Files = genFiles(st, s.Geo.Length, o.FileNames)
+		// padding files hold zeros (BEP 47): clients synthesise them
+		for _, f := range s.Files {
+			if f.Pad {
+				for i := f.Offset; i < f.Offset+f.Length; i++ {
+					s.Content[i] = 0
+				}
+			}
+		}
+		s.Hashes = PieceHashes(s.Content, s.Geo)
 	}
 	s.encode()
 	return s
